@@ -10,16 +10,30 @@ import (
 	"github.com/Trisia/randomness"
 )
 
+// sampleSource 串行化各工作器对随机源的读取：每个样本由一段连续、完整读取的字节组成
+type sampleSource struct {
+	mu     sync.Mutex
+	source io.Reader
+}
+
+// next 读满一个样本
+func (s *sampleSource) next(buf []byte) error {
+	s.mu.Lock()
+	defer s.mu.Unlock()
+	_, err := io.ReadFull(s.source, buf)
+	return err
+}
+
 // 工作器
 // jobs: 启动参数
 // source: 随机源
 // n: 读取字节数
 // round: 检测方式
 // counter: 结果集统计
-func worker(jobs chan int, source io.Reader, n int, round func([]byte) []*randomness.TestResult, counter []int32, distributions [][]float64, wait *sync.WaitGroup) {
+func worker(jobs chan int, source *sampleSource, n int, round func([]byte) []*randomness.TestResult, counter []int32, distributions [][]float64, wait *sync.WaitGroup) {
 	buf := make([]byte, n, n*2)
 	for i := range jobs {
-		_, err := source.Read(buf)
+		err := source.next(buf)
 		if err != nil {
 			continue
 		}
@@ -39,8 +53,9 @@ func worker(jobs chan int, source io.Reader, n int, round func([]byte) []*random
 func bootWorker(source io.Reader, n int, round func([]byte) []*randomness.TestResult, counter []int32, distributions [][]float64) (chan int, *sync.WaitGroup) {
 	var wait sync.WaitGroup
 	jobs := make(chan int)
+	src := &sampleSource{source: source}
 	for i := 0; i < runtime.NumCPU(); i++ {
-		go worker(jobs, source, n, round, counter, distributions, &wait)
+		go worker(jobs, src, n, round, counter, distributions, &wait)
 	}
 	return jobs, &wait
 }
